@@ -78,6 +78,7 @@ type Item struct {
 	ErrChecked bool     `json:"err_checked,omitempty"`
 	ErrReturn  string   `json:"err_return,omitempty"`
 	Guards     []string `json:"guards,omitempty"`
+	GuardX     []*Expr  `json:"guard_x,omitempty"`
 	SliceMode  string   `json:"slice_mode,omitempty"` // copy loop cast
 	SliceCast  string   `json:"slice_cast,omitempty"`
 	SliceType  string   `json:"slice_type,omitempty"`
@@ -211,13 +212,34 @@ type walker struct {
 	items    []Item
 }
 
+type guard struct {
+	text string
+	x    *Expr
+}
+
+func gTexts(gs []guard) []string {
+	var r []string
+	for _, g := range gs {
+		r = append(r, g.text)
+	}
+	return r
+}
+
+func gExprs(gs []guard) []*Expr {
+	var r []*Expr
+	for _, g := range gs {
+		r = append(r, g.x)
+	}
+	return r
+}
+
 type posNode struct {
 	pos  token.Pos
 	stmt ast.Stmt
 	cmt  *ast.Comment
 }
 
-func (w *walker) walk(stmts []ast.Stmt, lo, hi token.Pos, guards []string) {
+func (w *walker) walk(stmts []ast.Stmt, lo, hi token.Pos, guards []guard) {
 	var nodes []posNode
 	for _, s := range stmts {
 		nodes = append(nodes, posNode{pos: s.Pos(), stmt: s})
@@ -249,9 +271,9 @@ func (w *walker) walk(stmts []ast.Stmt, lo, hi token.Pos, guards []string) {
 
 func (w *walker) line(p token.Pos) int { return w.fset.Position(p).Line }
 
-func (w *walker) comment(c *ast.Comment, guards []string) {
+func (w *walker) comment(c *ast.Comment, guards []guard) {
 	t := strings.TrimSpace(strings.TrimPrefix(c.Text, "//"))
-	it := Item{Text: c.Text, Guards: guards, Line: w.line(c.Pos())}
+	it := Item{Text: c.Text, Guards: gTexts(guards), GuardX: gExprs(guards), Line: w.line(c.Pos())}
 	switch {
 	case strings.HasPrefix(t, "skip:"):
 		it.Kind = "skip"
@@ -310,9 +332,9 @@ func isErrNilCheck(s ast.Stmt) (*ast.IfStmt, bool) {
 	return nil, false
 }
 
-func (w *walker) stmt(s ast.Stmt, guards []string) {
+func (w *walker) stmt(s ast.Stmt, guards []guard) {
 	text := nodeText(w.fset, s)
-	base := Item{Text: text, Guards: guards, Line: w.line(s.Pos())}
+	base := Item{Text: text, Guards: gTexts(guards), GuardX: gExprs(guards), Line: w.line(s.Pos())}
 	switch st := s.(type) {
 	case *ast.ReturnStmt:
 		base.Kind = "return"
@@ -413,7 +435,7 @@ func (w *walker) stmt(s ast.Stmt, guards []string) {
 						w.items = append(w.items, si)
 						return
 					}
-					g := append(append([]string{}, guards...), condText)
+					g := append(append([]guard{}, guards...), guard{text: condText, x: w.expr(be.X)})
 					w.walk(st.Body.List, st.Body.Lbrace, st.Body.Rbrace, g)
 					return
 				}
@@ -456,7 +478,7 @@ func isCompositeAlloc(e ast.Expr) bool {
 //
 //	if RHS != nil { LHS = make(T, len(RHS)); copy(LHS, RHS) }
 //	if RHS != nil { LHS = make(T, len(RHS)); for i, e := range RHS { LHS[i] = e | C(e) } }
-func (w *walker) sliceBlock(is *ast.IfStmt, cond ast.Expr, guards []string) (Item, bool) {
+func (w *walker) sliceBlock(is *ast.IfStmt, cond ast.Expr, guards []guard) (Item, bool) {
 	var it Item
 	if len(is.Body.List) != 2 {
 		return it, false
@@ -488,7 +510,7 @@ func (w *walker) sliceBlock(is *ast.IfStmt, cond ast.Expr, guards []string) (Ite
 		return it, false
 	}
 	lhsText := nodeText(w.fset, as.Lhs[0])
-	it = Item{Kind: "slice", Root: root, Path: path, Text: nodeText(w.fset, is), Guards: guards,
+	it = Item{Kind: "slice", Root: root, Path: path, Text: nodeText(w.fset, is), Guards: gTexts(guards), GuardX: gExprs(guards),
 		Line: w.line(is.Pos()), RHS: w.expr(cond), SliceType: nodeText(w.fset, mk.Args[0])}
 	switch s2 := is.Body.List[1].(type) {
 	case *ast.ExprStmt:
